@@ -114,7 +114,11 @@ func generate(r *rng.R, thorough bool, index int) *history {
 		w.apply(o)
 		w.ct.takeObs()
 		if !w.ct.hung {
-			last = w.bq.VerifDump()
+			if d := w.bq.VerifDump(); d != nil {
+				last = d
+			} else {
+				w.ct.hung = true // the queue lock is stuck: the history ends here
+			}
 		}
 	}
 	dt := func() int64 {
@@ -241,6 +245,9 @@ func generate(r *rng.R, thorough bool, index int) *history {
 	}
 	var policyUsed []usedDigest
 	last = w.bq.VerifDump()
+	if last == nil {
+		last = &scheduler.VerifState{}
+	}
 	n := 30 + r.Intn(61)
 	if thorough {
 		n = 60 + r.Intn(200)
